@@ -92,6 +92,7 @@ def alphabet(ref, task):
     full = task.get("level", 0) == 0 or task["extra"].get("full_everywhere")
     for h in ref.attached_handles():
         out += dict_surface(h) if ref.handle_kind(h) == "dict" else list_surface(h, full)
+        out += alpha.twin_events(ref, h)
     lvl = task["extra"].get("level3")
     return out
 
